@@ -1280,7 +1280,22 @@ def replay(case):
     return res.violations
 
 
-REPRODUCERS = {}
+def repro_transformlinear_target():
+    import numpy
+    import treelog
+    from nutils import mesh, function
+    with treelog.set(treelog.NullLog()):
+        dom, geom = mesh.rectilinear([2, 2])
+        r1 = dom.refined
+        basis = r1.basis('std', degree=1)
+        x = r1.project(geom, onto=basis.vector(2), geometry=geom, degree=2)
+        g2 = x @ basis.vector(2)      # the same geometry, expressed in a basis of the refined topology
+        a1 = float(r1.integral(function.J(g2), degree=2).eval())
+        a2 = float(r1.refined.integral(function.J(g2), degree=2).eval())
+    return bool(abs(a1 - 4) > 1e-6 or abs(a2 - 4) > 1e-6), f'area of [0,2]^2 with a geometry expressed in a basis of dom.refined: {a1} on dom.refined, {a2} on dom.refined.refined (expected 4)'
+
+
+REPRODUCERS = {'C08-transformlinear-target-ignored': repro_transformlinear_target}
 
 
 def finalize(m, tier, seed):
